@@ -1,17 +1,9 @@
 (** C12: the hypotheses of the sequences-stream theorem are decidable, and they hold for the three predefined tables
     (all symbols of each alphabet): the round trip is unconditional for frames coded with the predefined tables. *)
 Require Import Zrs.lib.RsPrelude Zrs.gen.Generated Zrs.model.BitIO Zrs.model.BitStream Zrs.model.FseDec Zrs.model.HufDec
-  Zrs.model.BlockDec Zrs.model.SeqEnc.
+  Zrs.model.BlockDec Zrs.model.SeqEnc Zrs.model.FseEnc Zrs.model.SeqSection.
 Require Import Zrs.proofs.C12_Stream Zrs.proofs.C12_SeqStream.
 Open Scope Z_scope.
-
-Definition is_some_b {A} (o : option A) : bool := match o with Some _ => true | None => false end.
-
-Definition covers_b (D : fse_table) (sym : Z) : bool :=
-  is_some_b (min_base (t_decode D) 0 sym None) &&
-  forallb (fun n => let idx := Z.of_nat n in
-                    is_some_b (find_entry (t_decode D) 0 (fun e => (e_sym e =? sym) && (e_base e <=? idx) && (idx <? e_base e + 2 ^ e_bits e))))
-          (seq 0 (Z.to_nat (t_len D))).
 
 Lemma covers_b_sound D sym : covers_b D sym = true -> covers D sym.
 Proof.
@@ -23,8 +15,6 @@ Proof.
     specialize (H2 Hin). destruct (find_entry _ _ _); [discriminate|discriminate H2].
 Qed.
 
-Definition table_wf_b (D : fse_table) : bool :=
-  (Z.of_nat (length (t_decode D)) =? t_len D) && forallb (fun e => 0 <=? e_bits e) (t_decode D) && (0 <? t_acc_log D).
 Lemma table_wf_b_sound D : table_wf_b D = true -> table_wf D.
 Proof.
   unfold table_wf_b, table_wf. intros H. apply andb_prop in H. destruct H as [H H3]. apply andb_prop in H. destruct H as [H1 H2].
